@@ -27,8 +27,10 @@ theorem pprocess_early (env : Env) (he : Returns env) (hc : C05.Returns env) (a 
 
 set_option maxRecDepth 8000 in
 set_option maxHeartbeats 4000000 in
-theorem pprocess_late_fired (env : Env) (he : Returns env) (a : Async) (ha : pprocessCov a) (n m : Nat) (hm : m < loopLen n pprocessL pprocessLr) :
-    ∃ F, StreamShape n (execBlock env F { inputs := List.replicate n .item ++ [.release], left := some (m + pprocessP), async := a } pprocessRun) := by
+/-- a graceful stop that lands inside the loop - in any pass, at any line - still ends the stream with exactly one end marker -/
+theorem pprocess_late_fired_graceful (env : Env) (he : Returns env) (a : Async) (ha : pprocessCov a) (hk : a ≠ .kill) (n m : Nat)
+    (hm : m < loopLen n pprocessL pprocessLr) :
+    ∃ F, StreamEnds n (execBlock env F { inputs := List.replicate n .item ++ [.release], left := some (m + pprocessP), async := a } pprocessRun) := by
   obtain ⟨F, hF40, hF⟩ := pprocess_loop_disturbed env he a ha n
   have hW : pprocessW = .whileS _ _ _ := rfl
   have hrule := loop_fire_rule env a n pprocessL pprocessLr F pprocessW pprocessExtra hF
@@ -43,14 +45,55 @@ theorem pprocess_late_fired (env : Env) (he : Returns env) (a : Async) (ha : ppr
   unfold pprocessP
   rcases ha with rfl | rfl | rfl
   all_goals
-    (simp [pprocessRun, pprocessExtra, firedOut, firedReq, firedCtrl, exec_line, exec_ret, exec_brk, exec_call, exec_ifS, exec_tryS, execBlock, execHandlers,
-       lineEvent, doActs, doAct, evalCond, Catch.catches, hrule, hm, he.ret, he.tn, he.na]
-     generalize hg : loopEx env F _ _ = g
-     obtain ⟨j, hj, hres⟩ := hp _ _ hg rfl rfl ⟨rfl, rfl, rfl⟩ (by unfold pprocessExtra; first | rfl | trivial)
-     simp only [List.nil_append] at hres
-     first
-       | exact ⟨by simp, j, hj, Or.inr ⟨_, by rw [hres]⟩⟩
-       | exact ⟨by simp, j, hj, Or.inl hres⟩)
+    first
+    | exact absurd rfl hk
+    | (simp [pprocessRun, pprocessExtra, firedOut, firedReq, firedCtrl, exec_line, exec_ret, exec_brk, exec_call, exec_ifS, exec_tryS, execBlock, execHandlers,
+         lineEvent, doActs, doAct, evalCond, Catch.catches, hrule, hm, he.ret, he.tn, he.na]
+       generalize hg : loopEx env F _ _ = g
+       obtain ⟨j, hj, hres⟩ := hp _ _ hg rfl rfl ⟨rfl, rfl, rfl⟩ (by unfold pprocessExtra; first | rfl | trivial)
+       simp only [List.nil_append] at hres
+       exact ⟨by simp, j, hj, _, by rw [hres]⟩)
+
+set_option maxRecDepth 8000 in
+set_option maxHeartbeats 4000000 in
+theorem pprocess_late_fired_kill (env : Env) (he : Returns env) (n m : Nat) (hm : m < loopLen n pprocessL pprocessLr) :
+    ∃ F, StreamShape n (execBlock env F { inputs := List.replicate n .item ++ [.release], left := some (m + pprocessP), async := .kill } pprocessRun) := by
+  obtain ⟨F, hF40, hF⟩ := pprocess_loop_disturbed env he .kill (by simp [pprocessCov]) n
+  have hW : pprocessW = .whileS _ _ _ := rfl
+  have hrule := loop_fire_rule env .kill n pprocessL pprocessLr F pprocessW pprocessExtra hF
+  have hpre := loop_fire_prefix env .kill n pprocessL pprocessLr F pprocessW pprocessExtra hF
+  rw [hW] at hrule hpre
+  have hp : ∀ (g st : St), loopEx env F st (.whileS (lnOf pprocessW) (condOf pprocessW) (bodyOf pprocessW)) = g →
+      st.inputs = List.replicate n .item ++ [.release] → st.left = some m → QuietC .kill st → pprocessExtra st →
+      ∃ j, j ≤ n ∧ g.results = st.results ++ itemsFrom st.counter j := by
+    intro g st h hi hl hq hx; rw [← h]; exact hpre st m hi hl hm hq hx
+  clear hpre hF
+  refine ⟨F + 90, ?_⟩
+  unfold pprocessP
+  simp [pprocessRun, pprocessExtra, firedOut, firedReq, firedCtrl, exec_line, exec_ret, exec_brk, exec_call, exec_ifS, exec_tryS, execBlock, execHandlers,
+    lineEvent, doActs, doAct, evalCond, Catch.catches, hrule, hm, he.ret, he.tn, he.na]
+  generalize hg : loopEx env F _ _ = g
+  obtain ⟨j, hj, hres⟩ := hp _ _ hg rfl rfl ⟨rfl, rfl, rfl⟩ (by unfold pprocessExtra; first | rfl | trivial)
+  simp only [List.nil_append] at hres
+  first
+    | exact ⟨by simp, j, hj, Or.inl hres⟩
+    | exact ⟨by simp, j, hj, Or.inr ⟨_, by rw [hres]⟩⟩
+
+theorem pprocess_late_fired (env : Env) (he : Returns env) (a : Async) (ha : pprocessCov a) (n m : Nat) (hm : m < loopLen n pprocessL pprocessLr) :
+    ∃ F, StreamShape n (execBlock env F { inputs := List.replicate n .item ++ [.release], left := some (m + pprocessP), async := a } pprocessRun) := by
+  by_cases hk : a = .kill
+  · subst hk; exact pprocess_late_fired_kill env he n m hm
+  · obtain ⟨F, h⟩ := pprocess_late_fired_graceful env he a ha hk n m hm
+    exact ⟨F, h.shape⟩
+
+/-- a graceful stop landing inside the loop, for every fuel from some point on -/
+theorem pprocess_ends_in_loop (env : Env) (he : Returns env) (a : Async) (ha : pprocessCov a) (hk : a ≠ .kill) (n K : Nat)
+    (h1 : pprocessP ≤ K) (h2 : K < pprocessP + loopLen n pprocessL pprocessLr) :
+    ∃ F0, ∀ F, F0 ≤ F →
+      StreamEnds n (execBlock env F { inputs := List.replicate n .item ++ [.release], left := some K, async := a } pprocessRun) := by
+  obtain ⟨m, rfl⟩ : ∃ m, K = m + pprocessP := ⟨K - pprocessP, by omega⟩
+  obtain ⟨F, h⟩ := pprocess_late_fired_graceful env he a ha hk n m (by omega)
+  exact ⟨F, streamEnds_mono env _ _ n F h⟩
 
 set_option maxRecDepth 8000 in
 set_option maxHeartbeats 4000000 in
